@@ -85,9 +85,9 @@ def run(rep, drv):
 		py = r if isinstance(r, dict) else [int(x) for x in r]
 		mo = drv.call('nearest', a=case['a'], vs=case['vs'], sorted=srt)
 		vs = vals if shape != 'scalar' else vals[:1]
-		bad = isinstance(py, dict) or any(abs(arr[i] - v) != min(abs(x - v) for x in arr) for i, v in zip(py, vs))
+		bad = isinstance(py, dict) or len(py) != len(vs) or any(not (0 <= i < len(arr)) or abs(arr[i] - v) != min(abs(x - v) for x in arr) for i, v in zip(py, vs))
 		rep.exact_cmp += 1
-		if bad or (py != mo and any(abs(arr[i] - v) != abs(arr[j] - v) for i, j, v in zip(py, mo, vs))):
+		if bad or (py != mo and any(not (0 <= i < len(arr)) or abs(arr[i] - v) != abs(arr[j] - v) for i, j, v in zip(py, mo, vs))):
 			diff('find_nearest', 'find_nearest -> %s, model %s' % (py, mo), case, py, mo, bad)
 
 	# ---- convolve_many / sums of uniforms ---------------------------------
